@@ -6,7 +6,7 @@ RULE = ("same texts as C01; for every accepted text the projected tree of each f
 
 
 def run(ctx):
-    parsecheck.run_parse(ctx, {"corpus", "mutants", "gen", "doc"}, {"tree"})
+    parsecheck.run_parse(ctx, {"corpus", "mutants", "gen", "dates", "doc"}, {"tree"})
     return ctx.finish("model_checking", RULE)
 
 
